@@ -16,13 +16,16 @@ declaration is fetched is a parameter of the model:
 * `byId`   — `deps[c.Lhs[0]]`: the entry whose key *is* the identifier. One entry at most, so the
   enumeration order is irrelevant (`byId_perm`), and the whole ordering is a function of the
   declaration list only (`sortDeclarations_perm_invariant`).
-* `byName` — `depsOf(c.Lhs[0].Name, deps)`: range over the map, first key with that *name*. All
-  blank declarations are called `_`: with two of them the result is whichever the enumeration
-  reaches first (`byName_not_perm_invariant`), unless the names are distinct
-  (`byName_perm_of_distinct_names`).
+* `byName` — `depsOf(c.Lhs[0].Name, deps)` as it was before fix 89d8011: range over the map, first
+  key met with that *name*. All blank declarations are called `_`: with two of them the result is
+  whichever the enumeration reaches first (`byName_not_perm_invariant`), unless the names are
+  distinct (`byName_perm_of_distinct_names`).
+* `byNameFirst` — `depsOf` since fix 89d8011: among the keys with that name, the one that comes
+  first in the source (smallest `id`). A function of the map whatever the names
+  (`byNameFirst_perm`): identifiers are distinct nodes, so their positions are.
 
-Both are written as the fold of `Order.stepFirstMatch` — the class of the loop of `depsOf` in the
-site table. Core Lean only. -/
+The first two are written as the fold of `Order.stepFirstMatch`, the third as the fold of
+`Order.stepArgMin` — the class of the loop of `depsOf` in the site table. Core Lean only. -/
 namespace ScriggoV.DeclOrder
 open ScriggoV.Order
 
@@ -48,6 +51,11 @@ def byId (es : Entries) (d : Decl) : List String :=
 /-- `depsOf(d.Name, deps)` -/
 def byName (es : Entries) (d : Decl) : List String :=
   (es.foldl (stepFirstMatch (fun e => e.1.name == d.name) (fun e => e.2)) none).getD []
+
+/-- `depsOf(d.Name, deps)` since fix 89d8011: `first` = the key with that name and the smallest
+start offset (strict `<`), `deps[first]` -/
+def byNameFirst (es : Entries) (d : Decl) : List String :=
+  ((es.foldl (stepArgMin (fun e => e.1.name == d.name) (fun e => e.1.id)) none).map (·.2)).getD []
 
 /-- the first declaration of the pending list that is ready, and the list without it -/
 def pickFirst (ok : Decl → Bool) : List Decl → Option (Decl × List Decl)
@@ -149,7 +157,22 @@ theorem sortDeclarations_byName_perm_of_distinct_names {es es' : Entries}
   have : byName es = byName es' := funext (byName_perm_of_distinct_names nd h)
   rw [this]
 
-/-! ## … and does when looked up by name: the negative example -/
+/-- **The repaired lookup by name is a function of the map, not of its enumeration, shared names
+or not**: it selects by position, and the keys are distinct identifiers. -/
+theorem byNameFirst_perm {es es' : Entries} (nd : (es.map (·.1.id)).Nodup) (h : es.Perm es')
+    (d : Decl) : byNameFirst es d = byNameFirst es' d := by
+  unfold byNameFirst
+  rw [foldl_argMin _ _ h ?_ none]
+  intro a ha b hb ne hm
+  exact ne (eq_of_map_eq (fun e : Decl × List String => e.1.id) es nd a b ha hb hm)
+
+theorem sortDeclarations_byNameFirst_perm_invariant {es es' : Entries}
+    (nd : (es.map (·.1.id)).Nodup) (h : es.Perm es') (ds : List Decl) :
+    sortDeclarations (byNameFirst es) ds = sortDeclarations (byNameFirst es') ds := by
+  have : byNameFirst es = byNameFirst es' := funext (byNameFirst_perm nd h)
+  rw [this]
+
+/-! ## … and does when looked up by name as before fix 89d8011: the negative example -/
 
 /-- `const _ = uint(limit - 3)`, `var _ = T{}`, `const limit = 10` (the two blank declarations
 share the name `_`) -/
@@ -174,6 +197,13 @@ theorem witness_orders :
     (sortDeclarations (byName witnessEntries') witnessDecls).map (·.id) = [0, 2, 1] ∧
     resolvable (byId witnessEntries) (sortDeclarations (byName witnessEntries) witnessDecls) = true ∧
     resolvable (byId witnessEntries) (sortDeclarations (byName witnessEntries') witnessDecls) = false := by
+  decide
+
+/-- on the two enumerations of the witness the repaired lookup gives one answer: the list of the
+blank declaration that comes first -/
+theorem witness_byNameFirst :
+    byNameFirst witnessEntries ⟨1, .var, "_"⟩ = ["limit"] ∧
+    byNameFirst witnessEntries' ⟨1, .var, "_"⟩ = ["limit"] := by
   decide
 
 /-- **Lookup by name over keys that share a name is not a function of the map**: the shape for
